@@ -55,7 +55,8 @@ class QFactor(QFactorInstantiatorNative, Instantiater):
     def is_capable(circuit: Circuit) -> bool:
         """Return true if the circuit can be instantiated."""
         return all(
-            isinstance(gate, LocallyOptimizableUnitary)
+            gate.num_params == 0
+            or isinstance(gate, LocallyOptimizableUnitary)
             for gate in circuit.gate_set
         )
 
@@ -74,7 +75,8 @@ class QFactor(QFactorInstantiatorNative, Instantiater):
         invalid_gates = {
             gate
             for gate in circuit.gate_set
-            if not isinstance(gate, LocallyOptimizableUnitary)
+            if gate.num_params != 0
+            and not isinstance(gate, LocallyOptimizableUnitary)
         }
 
         if len(invalid_gates) == 0:
